@@ -25,7 +25,7 @@ namespace PsModel.C18
 inductive Frame where
   | evalFuncCall (fn : String) (file : String)
   | callFunc (fn : String)
-  | aeval (ctxFile : String) (ctxName : String) (line : Option Nat)
+  | aeval (ctx : Nat) (ctxFile : String) (ctxName : String) (line : Option Nat)
   | other
   | real (file fn : String) (line : Nat)
 deriving Repr, DecidableEq, Inhabited
@@ -42,7 +42,20 @@ structure FState where
   curFile : Option String := none      -- current_filename
   line : Nat := 1                      -- lineno
   rstack : List Entry := []            -- the StackSummary, last entry first
+  curCtx : Option Nat := none          -- current_ctx: the evaluator (identity) of the latest `aeval` frame
+  funcEntered : Bool := false          -- func_entered: an `EvalFunc.call` frame was seen since the latest `aeval` frame
 deriving Repr, DecidableEq, Inhabited
+
+/-- the shape of `_build_stack`'s `aeval` branch.  `resetOnNewCtx = true` (the current code, repair of finding C18-F3):
+an `aeval` frame of ANOTHER evaluator that was not entered through an `EvalFunc.call` frame is the body of a file that
+is being loaded (an import) – `current_func`, `current_filename` (and the code list) are taken afresh from that
+evaluator.  `false`: the shape before the repair (`current_filename` is set by the first `aeval` frame only). -/
+structure Cfg where
+  resetOnNewCtx : Bool
+deriving Repr, DecidableEq, Inhabited
+
+def Cfg.current : Cfg := ⟨true⟩
+def Cfg.preF3 : Cfg := ⟨false⟩
 
 /-- the name `ast_frame` gives an entry: `func = self.current_func; if not func and self.current_filename != ctx.name:
 func = ctx.name` -/
@@ -62,22 +75,36 @@ def astFrame (s : FState) (ctxName : String) : FState :=
     else { s with rstack := e :: last :: rest }
   | [] => { s with rstack := [e] }
 
+/-- `if ctx is not self.current_ctx: (if self.current_ctx is not None and not self.func_entered: reset);
+self.current_ctx = ctx`, then `self.func_entered = False` -/
+def enterCtx (c : Cfg) (s : FState) (ctx : Nat) : FState :=
+  if s.curCtx = some ctx then { s with funcEntered := false }
+  else if c.resetOnNewCtx && s.curCtx.isSome && !s.funcEntered then
+    { s with curFunc := none, curFile := none, curCtx := some ctx, funcEntered := false }
+  else { s with curCtx := some ctx, funcEntered := false }
+
 /-- one iteration of `while current_tb:` -/
-def step (s : FState) : Frame → FState
-  | .evalFuncCall fn file => { s with curFunc := some fn, curFile := some file }
+def stepC (c : Cfg) (s : FState) : Frame → FState
+  | .evalFuncCall fn file => { s with curFunc := some fn, curFile := some file, funcEntered := true }
   | .callFunc fn => if s.curFunc.isNone then { s with curFunc := some fn } else s
-  | .aeval ctxFile ctxName line =>
-    let s1 := if s.curFile.isNone then { s with curFile := some ctxFile } else s
+  | .aeval ctx ctxFile ctxName line =>
+    let s0 := enterCtx c s ctx
+    let s1 := if s0.curFile.isNone then { s0 with curFile := some ctxFile } else s0
     match line with
     | some l => astFrame { s1 with line := l } ctxName
     | none => s1
   | .other => s
   | .real file fn line => { s with rstack := { file := file, func := some fn, line := line, isReal := true } :: s.rstack }
 
-def run (s : FState) (fs : List Frame) : FState := fs.foldl step s
+def runC (c : Cfg) (s : FState) (fs : List Frame) : FState := fs.foldl (stepC c) s
 
 /-- the `StackSummary` built for a traceback -/
-def fmt (fs : List Frame) : List Entry := (run {} fs).rstack.reverse
+def fmtC (c : Cfg) (fs : List Frame) : List Entry := (runC c {} fs).rstack.reverse
+
+/-- the current code -/
+abbrev step := stepC Cfg.current
+abbrev run := runC Cfg.current
+abbrev fmt := fmtC Cfg.current
 
 /-! ## (ii) the frames of a chain of activations -/
 
@@ -87,7 +114,8 @@ first; the last one is where the activation currently is -/
 structure Act where
   file : String
   func : String
-  ctxFile : String          -- the evaluator the activation runs on (irrelevant once `EvalFunc.call` was seen)
+  ctx : Nat                 -- the evaluator the activation runs on: its identity, ...
+  ctxFile : String          -- ... its file and name (irrelevant once `EvalFunc.call` was seen)
   ctxName : String
   lines : List Nat
   last : Nat
@@ -95,19 +123,20 @@ structure Act where
   noise : Nat               -- how many ignored `eval.py` frames (`ast_call`, `ast_if`, …) sit between the `aeval`s
 deriving Repr, DecidableEq, Inhabited
 
-def aevals (file func : String) (noise : Nat) : List Nat → List Frame
+def aevals (ctx : Nat) (file func : String) (noise : Nat) : List Nat → List Frame
   | [] => []
-  | l :: r => .aeval file func (some l) :: (List.replicate noise .other ++ aevals file func noise r)
+  | l :: r => .aeval ctx file func (some l) :: (List.replicate noise .other ++ aevals ctx file func noise r)
 
 /-- `call_func`? → `EvalFunc.call` → `aeval` (statement) → … → `aeval` (innermost node) -/
 def actFrames (a : Act) : List Frame :=
   (if a.viaCallFunc then [.callFunc a.func] else []) ++
-  [.evalFuncCall a.func a.file] ++ aevals a.ctxFile a.ctxName a.noise (a.lines ++ [a.last])
+  [.evalFuncCall a.func a.file] ++ aevals a.ctx a.ctxFile a.ctxName a.noise (a.lines ++ [a.last])
 
 def framesOf (chain : List Act) : List Frame := (chain.map actFrames).flatten
 
 /-- a module body (file load, Jupyter cell): no `EvalFunc.call` frame; only possible at the bottom of a traceback -/
 structure ModAct where
+  ctx : Nat                 -- the evaluator `load_file` created for the file
   file : String
   ctxName : String
   lines : List Nat
@@ -115,7 +144,7 @@ structure ModAct where
   noise : Nat
 deriving Repr, DecidableEq, Inhabited
 
-def modFrames (m : ModAct) : List Frame := aevals m.file m.ctxName m.noise (m.lines ++ [m.last])
+def modFrames (m : ModAct) : List Frame := aevals m.ctx m.file m.ctxName m.noise (m.lines ++ [m.last])
 
 def modTriple (m : ModAct) : Entry :=
   { file := m.file, func := entryFunc none m.file m.ctxName, line := m.last, isReal := false }
@@ -129,6 +158,76 @@ def NoAdj : List Act → Prop
   | [] => True
   | [_] => True
   | a :: b :: r => (a.file ≠ b.file ∨ a.func ≠ b.func) ∧ NoAdj (b :: r)
+
+/-! ### nested loads (imports) -/
+
+/-- a frame of real Python code (`global_ctx.py: module_import`, `load_file`, …) -/
+structure RealFr where
+  file : String
+  fn : String
+  line : Nat
+deriving Repr, DecidableEq, Inhabited
+
+def RealFr.frame (r : RealFr) : Frame := .real r.file r.fn r.line
+def RealFr.entry (r : RealFr) : Entry := { file := r.file, func := some r.fn, line := r.line, isReal := true }
+
+/-- one import that runs a file: the real frames of the import machinery, the body of the imported file (a NEW
+evaluator), then the chain of script functions it calls -/
+structure Seg where
+  reals : List RealFr
+  m : ModAct
+  chain : List Act
+deriving Repr, DecidableEq, Inhabited
+
+def segFrames (g : Seg) : List Frame := g.reals.map RealFr.frame ++ modFrames g.m ++ framesOf g.chain
+def segTriples (g : Seg) : List Entry := g.reals.map RealFr.entry ++ modTriple g.m :: g.chain.map triple
+
+/-- the evaluator of the innermost activation -/
+def lastCtx (c : Nat) (chain : List Act) : Nat := (chain.getLast?.map (·.ctx)).getD c
+
+/-! ## (i′) the last line of a report (`Type: message`) -/
+
+/-- what calling the exception class's `__str__` does.  A `__str__` written in a script is a pyscript function: a
+coroutine function that may return a text, raise, return something that is not a string, or wait for something
+(`task.sleep`, a service call) before it returns its text -/
+inductive StrRes where
+  | returns (t : String)
+  | raises
+  | nonString
+  | suspends (t : String)
+deriving Repr, DecidableEq, Inhabited
+
+inductive StrImpl where
+  | native (r : StrRes)         -- a builtin class, or `__str__` inherited from one / compiled natively
+  | script (r : StrRes)         -- `__str__` defined in the script
+deriving Repr, DecidableEq, Inhabited
+
+def strFailed : String := "<exception str() failed>"
+
+/-- `traceback`'s final line: `Type: text`, or `Type` alone when the text is empty -/
+def finalLine (name text : String) : String := if text = "" then name else name ++ ": " ++ text
+
+/-- what `str(exc)` called by the traceback module yields for a native `__str__` (it blocks while `__str__` waits) -/
+def nativeStr : StrRes → String
+  | .returns t => t
+  | .raises => strFailed
+  | .nonString => strFailed
+  | .suspends t => t
+
+/-- `EvalExceptionFormatter._format_exception_only`.  `runScriptStr = true` (current code, repair of finding C18-F9): a
+`__str__` that is a script function is run to completion with `coro.send(None)` – its text is used when it returns a
+string without suspending; a `__str__` that raises, returns a non-string or waits for something is reported as Python
+reports a failing `__str__`.  `false` (before the repair): `str()` is called natively, gets a coroutine and fails. -/
+def lastLine (runScriptStr : Bool) (name : String) : StrImpl → String
+  | .native r => finalLine name (nativeStr r)
+  | .script r =>
+    if runScriptStr then
+      match r with
+      | .returns t => finalLine name t
+      | .raises => finalLine name strFailed
+      | .nonString => finalLine name strFailed
+      | .suspends _ => finalLine name strFailed
+    else finalLine name strFailed
 
 /-! ## (iii) containment -/
 
@@ -210,22 +309,35 @@ def serveAll (caught : Bool) (logger : String) (s : Loop) (os : List Occ) : Loop
 structure SrcFile where
   name : String
   loads : Res              -- does running the file raise?
+  shutdownFns : Nat := 0   -- functions with a `@time_trigger("shutdown")` defined before the file raises (legacy subsystem)
 deriving Repr, DecidableEq, Inhabited
 
 structure Loaded where
   contexts : List String
   log : List LogRec
+  ran : List String := [] -- script functions that were run during the load pass (by file)
 deriving Repr, DecidableEq, Inhabited
+
+/-- `TrigInfo.stop()`, called for every function of a file whose load raised (`load_file`: `global_ctx.stop()`): the
+shutdown function runs `if self.run_on_shutdown and self.started` (current code, repair of finding C18-F10:
+`needsStart = true`; a trigger of a file that is still loading was never started) – before the repair
+`if self.run_on_shutdown` (`needsStart = false`) -/
+def stopUnstarted (needsStart : Bool) (f : SrcFile) : List String :=
+  if needsStart then [] else List.replicate f.shutdownFns f.name
 
 /-- `load_scripts`' loop over the planned files: `load_file` logs on the file's logger and re-raises without
 registering the context; `load_scripts` catches, reports "Failed to load" and goes on -/
-def loadAll : List SrcFile → Loaded → Loaded
+def loadAllC (needsStart : Bool) : List SrcFile → Loaded → Loaded
   | [], s => s
   | f :: r, s =>
     match f.loads with
-    | .ok => loadAll r { s with contexts := s.contexts ++ [f.name] }
+    | .ok => loadAllC needsStart r { s with contexts := s.contexts ++ [f.name] }
     | .raise e =>
-      loadAll r { s with log := s.log ++ [{ logger := f.name, exc := e, scriptTb := true },
-                                        { logger := "pyscript", exc := e, scriptTb := false }] }
+      loadAllC needsStart r { s with ran := s.ran ++ stopUnstarted needsStart f,
+                                     log := s.log ++ [{ logger := f.name, exc := e, scriptTb := true },
+                                                      { logger := "pyscript", exc := e, scriptTb := false }] }
+
+/-- the current code -/
+abbrev loadAll := loadAllC true
 
 end PsModel.C18
